@@ -313,9 +313,10 @@ def tt_irenumber(
     newsubs = t.subs.astype(int)
     for i, r in enumerate(number_range):
         if isinstance(r, slice):
-            start = r.start or 0
-            stop = r.stop or shape[i]
-            newsubs[:, i] = np.arange(start, stop + 1)[newsubs[:, i]]
+            # k-th position of the slice in the (already enlarged) destination
+            # mode; honours a step and negative (relative) bounds
+            start, _, step = r.indices(shape[i])
+            newsubs[:, i] = start + step * newsubs[:, i]
         elif isinstance(r, int):
             # This appears to be inserting new keys as rows to our subs here
             newsubs = np.insert(newsubs, obj=i, values=r, axis=1)
